@@ -85,6 +85,35 @@ pub trait ExRead {
     type ExternalTraitSpecificationFor: std::io::Read;
 }
 
+// ---- the driver half of go(): the reader is opaque here (unit R proves its contracts), the read loop is unit LOOP's
+pub mod rd {
+use vstd::prelude::*;
+use std::io::Read;
+#[verifier::external_body]
+#[verifier::reject_recursive_types(R)]
+pub struct Reader<R: Read> { _p: std::marker::PhantomData<R> }
+pub uninterp spec fn source<R>(r: R) -> Seq<Option<u8>>;
+impl<R: Read> Reader<R> {
+    pub uninterp spec fn rest(&self) -> Seq<Option<u8>>;
+    pub uninterp spec fn cur(&self) -> Option<u8>;
+    pub uninterp spec fn line(&self) -> int;
+    pub uninterp spec fn col(&self) -> int;
+    pub uninterp spec fn name(&self) -> Option<String>;
+    pub uninterp spec fn wf(&self) -> bool;
+    pub open spec fn pending(&self) -> Seq<Option<u8>> {
+        if self.cur() is Some { seq![self.cur()].add(self.rest()) } else { self.rest() }
+    }
+    pub open spec fn room(&self) -> bool { self.line() + self.rest().len() < usize::MAX && self.col() + self.rest().len() < usize::MAX }
+}
+// src/reader.rs: from_std_in — ASSUMED here, proved in unit R (R.from_std_in.lazy): nothing read yet, position 1:1
+#[verifier::external_body]
+pub fn from_std_in<R: Read>(stdin: R) -> (r: Reader<R>)
+    ensures r.wf(), r.cur() is None, r.rest() == source(stdin), r.line() == 1, r.col() == 1, r.name() == None::<String>,
+{ unimplemented!() }
+}
+use rd::*;
+//@@ include prelude/fed.rs
+
 // what an option text parses to (the expression parser is C13/C18's subject; here it only has to be a FUNCTION of the text)
 pub uninterp spec fn getter_of(text: Seq<char>) -> Rc<dyn Get>;
 pub uninterp spec fn select_name_of(text: Seq<char>) -> String;
@@ -378,6 +407,73 @@ impl<S: Read> Master<S> {
         let ghost assembled = process;
         let ghost gv = vars_upto(cli.set@, cli.set@.len() as int);
         let ghost gm = macros_upto(cli.set@, cli.set@.len() as int);
+//@@ endslice
+
+//@@ fn go.read_input = src/lib.rs :: impl<S: Read> Master<S> :: fn read_input
+//@@ ret r
+//@@ assume
+//@@ header-from specs/loop/read_input_reduced.spec
+//@@ endfn
+//@@ fn go.read_file = src/lib.rs :: impl<S: Read> Master<S> :: fn read_file
+//@@ ret r
+//@@ assume
+//@@ header-from specs/loop/read_file.spec
+//@@ endfn
+
+// ---- the DRIVER half of go(): read everything (stdin, or the files in order, stopping at Break), then complete().
+// The synthetic tail returns the chain, so `return Ok(())` inside the slice does not type-check: the slice can only end well
+// through complete(), and then the output is what the started chain prints for exactly the rows that were fed.
+//@@ slice go.drive = src/lib.rs :: impl<S: Read> Master<S> :: fn go
+//@@ safety C03 C08 C09 C14 C16 C01
+//@@ rewrite box_as_mut stdin_call
+//@@ from-after "process.start(Titles::default())?;"
+//@@ to "process.complete()?;"
+//@@ prologue
+    pub fn go_drive(&self, started: Box<dyn Process>) -> (r: Result<Box<dyn Process>>)
+        requires started.inv(),
+            // "the standard input is shorter than 2^64 bytes" (line / column / value counters are machine integers)
+            forall|s: S| #[trigger] source(s).len() + 1 < usize::MAX,
+        ensures
+            // end of input is always delivered: the final output is the started chain's output for the rows fed, complete() included
+            r is Ok ==> exists|fed: Seq<Context>| r->Ok_0.log() == started.log().add(#[trigger] started.fut(fed)), // @obl GO.drive.completes : C03 C08 C09 C01
+            r is Ok ==> r->Ok_0.inv(), // @obl GO.drive.inv : C03
+    {
+        let mut process = started;
+        let ghost mut fed: Seq<Context> = Seq::empty();
+        proof { assert forall|x: Seq<Context>| #[trigger] fed.add(x) =~= x by {} }
+//@@ epilogue
+        proof { assert(fed.add(Seq::<Context>::empty()) =~= fed); }
+        let r: Result<Box<dyn Process>> = Ok(process);
+        proof { assert(r->Ok_0.log() == started.log().add(started.fut(fed))); }
+        r
+    }
+//@@ before "self.read_input(&mut reader, &mut index, process.as_mut())?;"
+            let ghost pre = process;
+//@@ after "self.read_input(&mut reader, &mut index, process.as_mut())?;"
+            proof {
+                let f2 = choose|f2: Seq<Context>| fed_post(&*pre, &*process, f2);
+                lemma_fed_trans(&*started, &*pre, &*process, fed, f2);
+                fed = fed.add(f2);
+            }
+//@@ loop 1 iter it
+                invariant process.inv(), fed_box(started, process, fed),
+//@@ loop-start 1
+                let ghost pre = process;
+//@@ before "break;"
+                    proof {
+                        let f2 = choose|f2: Seq<Context>| fed_post(&*pre, &*process, f2);
+                        lemma_fed_trans(&*started, &*pre, &*process, fed, f2);
+                        fed = fed.add(f2);
+                    }
+//@@ loop-end 1
+                proof {
+                    let f2 = choose|f2: Seq<Context>| fed_post(&*pre, &*process, f2);
+                    lemma_fed_trans(&*started, &*pre, &*process, fed, f2);
+                    fed = fed.add(f2);
+                }
+//@@ before "process.complete()?;"
+        let ghost last = process;
+        proof { assert(fed_box(started, last, fed)); }
 //@@ endslice
 }
 
